@@ -56,6 +56,8 @@ def make_app(kind, services_only=False, soap='soap11'):
         fifth = Unicode(xml_choice_group='bravo', doc='a documented member')
         sixth = Integer(xml_choice_group='alpha')
         att = XmlAttribute(Integer)
+        hue = XmlAttribute(Enum('warm', 'cold', type_name='Hue'), ns=ns[3])       # an attribute with a namespace of its own
+        plain_enum_att = XmlAttribute(Enum('on', 'off', type_name='Switch'))
         anyx = AnyXml
         dflt = Integer(default=5)
         # restricted simple types of every facet family the emitter knows
@@ -295,7 +297,12 @@ def _mk_closure(kind, soap='soap11'):
                      "part) resolves in the document or to an XSD builtin; cross-namespace references are imported; every "
                      "exposed method appears as exactly one portType operation with matching binding operation and messages")
     def ob(c):
-        app = make_app(kind, soap=soap)
+        o0 = c.run(make_app, kind, False, soap)
+        # the generated application uses documented features only: it must be constructible
+        c.check('application_builds', o0.returned, detail=repr(o0)[:600])
+        if not o0.returned:
+            return
+        app = o0.value
         w = Wsdl11(app.interface)
         out = c.run(w.build_interface_document, 'http://example.com/')
         c.check('build_returns', out.returned, detail=repr(out))
